@@ -8,7 +8,7 @@ USERS = ["u0", "u1", "u2", "u3"]
 
 
 def full(s):
-    return "1356:" + s
+    return s if s.count(":") == 2 else "1356:" + s
 
 
 def ibtp_id(f, t, i):
@@ -313,8 +313,41 @@ class ExecGen:
         self.ids += [ibtp_id(f, t, i)]
         self.tags.add("receipt-with-group-scenario")
 
+    def scripted_interhub(self):
+        """between two BitXHubs: another hub (id 9999, four validators) is registered as a relay chain by governance; a local service
+        sends a request with a deadline to a service over there; the other hub's receipt (signed by enough of its validators) arrives
+        before the deadline, at it, after it or never — the record moves along the same protocol as a local one"""
+        r = self.rng
+
+        def blk(txs):
+            self.height += 1
+            self.ops.append("block " + " | ".join(txs))
+            self.observe()
+        blk(["xfer adm0 ca9 100000000000"])
+        blk(["bvm ca9 appchain RegisterAppchain s:9999 s:name-9999 x: s:relaychain trust:1,2,3,4 s:0xbroker s:desc s:0x00000000000000000000000000000000000000a2 s:url s:@ca9 s:reason"])
+        for v in ("adm0", "adm1", "adm2"):
+            blk([f"bvm {v} gov Vote s:@ca9-0 s:approve s:r"])
+        f, t = r.choice(["c1:s1", "c2:s1", "c4:s1"]), "9999:c5:s1"
+        T = r.choice([2, 3, 4, 0])
+        tid = ibtp_id(f, t, 1)
+        self.watch = getattr(self, "watch", []) + [tid]
+        self.ids += [tid]
+        blk([f"ibtp {ADMIN[f.split(':')[0]]} {f} {t} 1 req {T} - ok"])
+        when = r.choice(["before", "before", "at", "after", "never"]) if T else "before"
+        wait = {"before": max(0, T - 2), "at": max(0, T - 1), "after": T + 1, "never": 0}[when]
+        for _ in range(wait if when != "never" else 0):
+            blk([])
+        if when != "never":
+            blk([f"ibtp ca9 {f} {t} 1 {r.choice(['ok', 'ok', 'fail'])} 0 - {r.choice(['msig2', 'msig2', 'msig3', 'msig1'])}"])
+        for _ in range(T + 2):
+            blk([])
+        self.tags.add("interhub-scenario:" + when)
+
     def history(self, nblocks):
         k = self.rng.random()
+        if self.focus == "single" and 0.8 < k <= 0.9:
+            self.scripted_interhub()
+            nblocks = min(nblocks, 4)
         if self.focus in ("single", "mixed") and k > 0.9:
             self.scripted_receipt_with_group()
             nblocks = max(nblocks, 7)
